@@ -580,12 +580,24 @@ pub fn stress_threads(sseed: u64, per_thread: u64) -> Report {
 struct ManualInner {
     st: Arc<std::sync::Mutex<ManualState>>,
 }
+/// A response whose `Clone` can be made to panic (a user type with a fallible clone): the leader
+/// clones its result for the waiters inside its own poll.
+#[derive(Debug)]
+struct Val(u64, bool);
+impl Clone for Val {
+    fn clone(&self) -> Self {
+        if self.1 {
+            panic!("scripted panic in the response's Clone (harness)");
+        }
+        Val(self.0, self.1)
+    }
+}
 #[derive(Default)]
 struct ManualState {
     calls: u64,
     in_flight: u64,
     max_in_flight: u64,
-    senders: Vec<futures::channel::oneshot::Sender<Result<u64, String>>>,
+    senders: Vec<futures::channel::oneshot::Sender<Result<Val, String>>>,
 }
 impl Clone for ManualInner {
     fn clone(&self) -> Self {
@@ -599,9 +611,9 @@ impl Drop for InFlight {
     }
 }
 impl tower::Service<u32> for ManualInner {
-    type Response = u64;
+    type Response = Val;
     type Error = String;
-    type Future = std::pin::Pin<Box<dyn std::future::Future<Output = Result<u64, String>> + Send>>;
+    type Future = std::pin::Pin<Box<dyn std::future::Future<Output = Result<Val, String>> + Send>>;
     fn poll_ready(&mut self, _cx: &mut std::task::Context<'_>) -> std::task::Poll<Result<(), String>> {
         std::task::Poll::Ready(Ok(()))
     }
@@ -661,7 +673,7 @@ pub fn unwind_context(sseed: u64) -> Report {
     let mut cx = Context::from_waker(&waker);
     let st = Arc::new(std::sync::Mutex::new(ManualState::default()));
     let mut svc = CoalesceLayer::new(|k: &u32| *k).layer(ManualInner { st: st.clone() });
-    type Fut = std::pin::Pin<Box<dyn Future<Output = Result<u64, CoalesceError<String>>>>>;
+    type Fut = std::pin::Pin<Box<dyn Future<Output = Result<Val, CoalesceError<String>>>>>;
     // which steps of the leader's life happen in the unwinding context
     let call_in_unwind = rng.chance(0.5);
     let first_poll_in_unwind = rng.chance(0.5);
@@ -669,8 +681,8 @@ pub fn unwind_context(sseed: u64) -> Report {
     let n_waiters = rng.range(1, 3) as usize;
     let ok = rng.chance(0.7);
     let key = rng.below(3) as u32;
-    let show = |r: &Result<u64, CoalesceError<String>>| match r {
-        Ok(v) => format!("Ok({v})"),
+    let show = |r: &Result<Val, CoalesceError<String>>| match r {
+        Ok(v) => format!("Ok({})", v.0),
         Err(CoalesceError::Service(e)) => format!("Err({e})"),
         Err(CoalesceError::LeaderCancelled) => "LeaderCancelled".to_string(),
         Err(CoalesceError::RecvError) => "RecvError".to_string(),
@@ -739,9 +751,51 @@ pub fn unwind_context(sseed: u64) -> Report {
         }
     }
     // complete every inner call that exists with a distinct value: #1 -> 101, #2 -> 102 ...
+    let clone_panics = ok && rng.chance(0.3);
     let senders: Vec<_> = std::mem::take(&mut st.lock().unwrap_or_else(|e| e.into_inner()).senders);
     for (i, tx) in senders.into_iter().enumerate() {
-        let _ = tx.send(if ok { Ok(101 + i as u64) } else { Err(format!("e{}", 101 + i)) });
+        let _ = tx.send(if ok { Ok(Val(101 + i as u64, clone_panics)) } else { Err(format!("e{}", 101 + i)) });
+    }
+    if clone_panics {
+        // The leader's completing poll panics while it clones the result for its waiters. The caller
+        // catches the panic and keeps the future: the key must be free at once — waiters learn that
+        // their leader is gone, and a new request leads a fresh call.
+        steps.push("the response's Clone panics inside the leader's completing poll; the caller catches it and keeps the future");
+        let r = std::panic::catch_unwind(std::panic::AssertUnwindSafe(|| leader.as_mut().poll(&mut cx).is_ready()));
+        if r.is_ok() {
+            fail(&mut rep, "clone-panic-swallowed", "the leader's poll returned although cloning its result panicked".to_string());
+        }
+        let _ = crate::sim::take_last_panic();
+        for (i, f) in waiters.iter_mut().enumerate() {
+            let mut out = None;
+            for _ in 0..16 {
+                if let Poll::Ready(r) = f.as_mut().poll(&mut cx) {
+                    out = Some(show(&r));
+                    break;
+                }
+            }
+            match out {
+                None => fail(&mut rep, "caller-stuck", format!("waiter {} did not resolve within 16 polls after its leader's poll had panicked (the leader future is still held by its caller); steps: {steps:?}", i + 1)),
+                Some(o) if o != "LeaderCancelled" => fail(&mut rep, "wrong-result", format!("waiter {} resolved with {o} after its leader's poll had panicked before handing out the result", i + 1)),
+                _ => {}
+            }
+        }
+        let before = st.lock().unwrap_or_else(|e| e.into_inner()).calls;
+        let _ = svc.poll_ready(&mut cx);
+        let mut f: Fut = Box::pin(svc.call(key));
+        let _ = f.as_mut().poll(&mut cx);
+        let after = st.lock().unwrap_or_else(|e| e.into_inner()).calls;
+        if after != before + 1 {
+            fail(&mut rep, "free-key-did-not-lead", format!("a request for key {key} made after the leader's poll had panicked did not start an inner call of its own ({before} -> {after} inner calls)"));
+        }
+        rep.count("leader_polls_panicking_in_clone", 1);
+        rep.count("requests_made_or_polled_during_an_unwind", steps.len() as u64);
+        rep.bucket(format!("call={} first_poll={} later_poll={} clone-panic", call_in_unwind, first_poll_in_unwind, later_poll_in_unwind));
+        rep.nontrivial = true;
+        rep.sig = crate::prng::mix(0xC10E, ((call_in_unwind as u64) << 2) | ((first_poll_in_unwind as u64) << 1) | later_poll_in_unwind as u64) ^ (n_waiters as u64);
+        rep.case = json!({"engine": "unwind-context", "steps": steps, "waiters": waiters.len(), "clone_panics": true, "key": key});
+        drop(f);
+        return rep;
     }
     let expect = if ok { "Ok(101)".to_string() } else { "Err(e101)".to_string() };
     let mut results = vec![];
